@@ -8,6 +8,7 @@
 #include "libeconf.h"
 #include <math.h>
 #include <inttypes.h>
+#include <errno.h>
 
 enum { T_I32, T_U32, T_F32, T_I64, T_U64, T_F64, T_BOOL, T_N };
 static const char *TN[T_N] = { "int32", "uint32", "float", "int64", "uint64", "double", "bool" };
@@ -65,6 +66,8 @@ static econf_err do_set(econf_file *f, const char *key, int type, uint64_t bits)
 static int do_get_check(econf_file *f, const char *key, int type, uint64_t bits, char *msg, size_t cap)
 {
   econf_err rc;
+  static int flip;
+  errno = (flip ^= 1) ? ERANGE : EINVAL;   /* a getter must not depend on what an earlier call left in errno */
   switch (type) {
   case T_I32: { int32_t v = 0; rc = econf_getIntValue(f, NULL, key, &v); if (rc || v != (int32_t)(uint32_t)bits) { snprintf(msg, cap, "rc=%d got %" PRId32, (int)rc, v); return 1; } return 0; }
   case T_U32: { uint32_t v = 0; rc = econf_getUIntValue(f, NULL, key, &v); if (rc || v != (uint32_t)bits) { snprintf(msg, cap, "rc=%d got %" PRIu32, (int)rc, v); return 1; } return 0; }
